@@ -76,8 +76,8 @@ CLAIMED = {
               "metrics with distractor variables at other positions are recomputed by TLC as exact rationals."),
         ref="4 C10, 3.6", technique="TLA+ spec (MetricSelect: nondeterministic selection rule) + TLC trace validation of real get_metric and operator calls"),
     "C16": dict(
-        text=("TLC exhausts the registry state machine (2 keys x 2 slots x 2 candidate variables, calls of 1-2 variables, "
-              "overwrite on/off, 4 calls) with a history variable and checks: each slot holds the latest successful "
+        text=("TLC exhausts the registry state machine (2 keys x 2-3 slots x 2 candidate variables, calls of 1-3 variables at "
+              "different slots or two variables of one slot, overwrite on/off, 3-4 calls) with a history variable and checks: each slot holds the latest successful "
               "registration, at most one variable per slot, a refusal keeps the refused slot, a batch equals its singles. The "
               "implementation's own reachable registry graph is explored breadth-first (every call from every reached state, "
               "first call also via the constructor) and every transition (registry before, call, outcome, registry after, "
